@@ -268,19 +268,23 @@ def stepCheck (d : DState) (depth : Nat) : DState × Bool :=
       else if st.pausesAt depth then ({ d with steps := aerase d.steps k }, true)
       else (d, false)
 
+/-- The `if !should_pause { matches_breakpoint ... }` part of the `Running` block together with
+the resulting `if should_pause { mode = Paused; pending_stop = None; emit_stop(Breakpoint) }`. -/
+def bpBlock (d : DState) (loc : Loc) (ctx : Bool) : DState :=
+  let m := matchBps d.breakpoints loc ctx
+  let d2 := { d with breakpoints := m.1, logs := d.logs + m.2.1 }
+  match m.2.2 with
+  | some g =>
+    emitStop { d2 with steps := [], targetThread := none, mode := .paused, pendingStop := none }
+      .breakpoint (some loc) (some g)
+  | none => d2
+
 /-- The `if let (DebugMode::Running, Some(location)) = (effective_mode, location)` block. -/
 def runningBlock (d : DState) (tgt : Bool) (loc : Loc) (depth : Nat) (ctx : Bool) : DState :=
   let r := if tgt then stepCheck d depth else (d, false)
   if r.2 then
     emitStop { r.1 with mode := .paused, pendingStop := none } .step (some loc) none
-  else
-    let m := matchBps r.1.breakpoints loc ctx
-    let d2 := { r.1 with breakpoints := m.1, logs := r.1.logs + m.2.1 }
-    match m.2.2 with
-    | some g =>
-      emitStop { d2 with steps := [], targetThread := none, mode := .paused, pendingStop := none }
-        .breakpoint (some loc) (some g)
-    | none => d2
+  else bpBlock r.1 loc ctx
 
 /-- The bookkeeping at the top of `on_statement_inner` (`last_location`, `last_call_depth`,
 `last_call_depths[current_thread]`). -/
@@ -536,5 +540,18 @@ def ASys.quiescentParked (s : ASys) : Bool :=
 cycle thread is parked for good, the client has been told (a `stopped` event after its last
 continue/step request). -/
 def ASys.told (s : ASys) : Bool := !s.quiescentParked || s.clientStopped
+
+/-- Guard of the partial adapter theorem: a `setBreakpoints` request is *safe* in a state when it
+only carries breakpoints of the file it names and no Breakpoint stop is waiting in the stop channel
+(i.e. it does not fall between a breakpoint hit and the coordinator's turn). -/
+def ASys.okLabel (s : ASys) : ALabel → Bool
+  | .reqSetBps file bps =>
+    bps.all (fun bp => bp.loc.file == file) && s.chan.all (fun st => st.reason != .breakpoint)
+  | _ => true
+
+/-- Every `setBreakpoints` of the run is safe at the moment it is handled. -/
+def ASys.runOk (s : ASys) : List ALabel → Bool
+  | [] => true
+  | l :: ls => s.okLabel l && ASys.runOk (astep s l) ls
 
 end TrustVerif.C17
